@@ -277,9 +277,11 @@ var (
 	hotBytes = []byte{'/', ':', '@', '.', '-', '_', '\\', '%', 0, '/', ':', '.', ' ', '~', '+', '*', '?', '#', '[', '\n', '\t', 0x7f, 0x80, 0xff, 0xc3}
 
 	goodSpecial = [4][]string{
-		{"registry.ollama.ai", "localhost:11434", "127.0.0.1:5000", "hf.co", "Registry.Ollama.AI", "h", "_", "a:", "a::b", "a..b", "a.-_:", "0", "example.com:443", "x--y"},
-		{"library", "Library", "n", "_", "user_name", "a-b", "a--", "0", "LIBRARY"},
-		{"llama3", "m", "_", "Llama-3.2", "a..b", "a.", "a-", "0", "con", "nul", "x.gguf", "MISSING"},
+		// (a default word of one part also appears in the pools of the other parts: a host spelled "library", a
+		// namespace spelled like the default host - printing short forms must not confuse them)
+		{"registry.ollama.ai", "localhost:11434", "127.0.0.1:5000", "hf.co", "Registry.Ollama.AI", "h", "_", "a:", "a::b", "a..b", "a.-_:", "0", "example.com:443", "x--y", "library", "Library", "latest"},
+		{"library", "Library", "n", "_", "user_name", "a-b", "a--", "0", "LIBRARY", "registry.ollama.ai", "latest"},
+		{"llama3", "m", "_", "Llama-3.2", "a..b", "a.", "a-", "0", "con", "nul", "x.gguf", "MISSING", "library", "registry.ollama.ai", "latest"},
 		{"latest", "t", "LATEST", "7b-instruct-q4_K_M", "v1.2.3", "_", "a..b", "0", "latest."},
 	}
 	badSpecial = []string{
